@@ -413,6 +413,25 @@ int main(void)
 			if ((h2 = handle_arg(drv_w[3])) < 0 || wmode[h2]) BAD;
 			result_int(mpt_array_clone(arr, &H[h2]._a), "-");
 		}
+#ifdef DRV_ELEM
+		else if (!strcmp(op, "alloc") && drv_nw == 7 && !strncmp(drv_w[6], "el:", 3)) {
+			/* a new buffer (any flags) whose owner constructs k elements in place */
+			const MPT_STRUCT(type_traits) *t = traits_by_name(drv_w[5], &ok);
+			size_t k;
+			if (!ok || !t || !t->fini || !t->size || opnd(drv_w[3], h, &a) || drv_parse_nat(drv_w[4], &b) || b > 3
+			    || drv_parse_nat(drv_w[6] + 3, &k) || k > 64) BAD;
+			mpt_array_clone(arr, 0);
+			dlen = k * t->size;
+			MPT_STRUCT(buffer) *nb = _mpt_buffer_alloc(a > dlen ? a : dlen, (int) b);
+			nb->_content_traits = t;
+			oracle_off = 1;
+			for (size_t i = 0; i < k; i++) el_init((uint8_t *) (nb + 1) + i * t->size, 0, t->size);
+			oracle_off = 0;
+			nb->_used = dlen;
+			arr->_buf = nb;
+			result("ok", "-", "-", 0);
+		}
+#endif
 		else if (!strcmp(op, "alloc") && drv_nw == 7) {
 			const MPT_STRUCT(type_traits) *t = traits_by_name(drv_w[5], &ok);
 			if (!ok || opnd(drv_w[3], h, &a) || drv_parse_nat(drv_w[4], &b) || b > 3
